@@ -5,6 +5,7 @@ import MosnVerif.Model.HealthCheck
 import MosnVerif.Model.HealthLoop
 import MosnVerif.Model.HealthDispatch
 import MosnVerif.Model.HealthLifecycle
+import MosnVerif.Model.HealthShare
 namespace MosnVerif.Drive.C16
 open MosnVerif.Drive MosnVerif.Model
 
@@ -435,6 +436,111 @@ def lc (cfg words ops : String) (impl : List String) : String :=
 
 end Lifecycle
 
+/-! ## part D: one word per address, checkers per cluster. `sh <u:h|-,…> <w0,…> <ops> => <w0,…:cb:view0|view1|…;…>` (harness/c16/share.go) -/
+section Share
+open MosnVerif.Model.HealthLifecycle (Word World Cid Addr)
+open MosnVerif.Model.HealthCheck
+open MosnVerif.Model.HealthShare
+
+def parseShOp (s : String) : Option SOp :=
+  match s.toList with
+  | 'U' :: k :: '=' :: r => do
+    let k ← digitVal k
+    let hs ← r.mapM digitVal
+    if hs.eraseDups.length != hs.length then none else pure (.update k hs)
+  | ['P', k, a] => do pure (.append (← digitVal k) (← digitVal a))
+  | ['R', k, a] => do pure (.remove (← digitVal k) (← digitVal a))
+  | ['N', k, '=', '-'] => (digitVal k).map (.reconf · none)
+  | 'N' :: k :: '=' :: r =>
+    match (String.ofList r).splitOn "." with
+    | [u, h] => do
+      let k ← digitVal k
+      let u ← u.toNat?
+      let h ← h.toNat?
+      pure (.reconf k (some (u, h)))
+    | _ => none
+  | ['r', k, a, c] => do
+    let k ← digitVal k
+    let a ← digitVal a
+    let r ← (match c with
+      | 's' => some Result.success
+      | 'f' => some Result.failure
+      | 't' => some Result.timeout
+      | _ => none)
+    pure (.result k a r)
+  | ['o', a, '+'] => (digitVal a).map (.outlier · true)
+  | ['o', a, '-'] => (digitVal a).map (.outlier · false)
+  | _ => none
+
+def parseShCfg (s : String) : Option (List (Option (Nat × Nat))) :=
+  (s.splitOn ",").mapM (fun e => if e == "-" then some none else match e.splitOn ":" with
+    | [u, h] => match u.toNat?, h.toNat? with
+      | some u, some h => some (some (u, h))
+      | _, _ => none
+    | _ => none)
+
+def shOpOk (m n : Nat) : SOp → Bool
+  | .update k hs => k < m && hs.all (· < n)
+  | .append k a => k < m && a < n
+  | .remove k a => k < m && a < n
+  | .reconf k _ => k < m
+  | .result k a _ => k < m && a < n
+  | .outlier a _ => a < n
+
+def fmtView (v : List (Addr × Bool)) : String :=
+  if v.isEmpty then "." else String.join (v.map (fun p => toString p.1 ++ (if p.2 then "+" else "-")))
+
+def fmtShSeen (n : Nat) (o : HealthShare.Seen) : String :=
+  joinWith "," ((List.range n).map (fun a => toString (o.words a).toNat)) ++ ":" ++ fmtCb o.cb ++ ":" ++
+    joinWith "|" (o.views.map fmtView)
+
+def parseView (s : String) : Option (List (Addr × Bool)) :=
+  if s == "." then some [] else
+  let rec go : List Char → Option (List (Addr × Bool))
+    | [] => some []
+    | d :: '+' :: r => do pure ((← digitVal d, true) :: (← go r))
+    | d :: '-' :: r => do pure ((← digitVal d, false) :: (← go r))
+    | _ => none
+  go s.toList
+
+def parseShSeen (n : Nat) (s : String) : Option HealthShare.Seen :=
+  match s.splitOn ":" with
+  | [ws, cb, vs] =>
+    match (ws.splitOn ",").mapM String.toNat?, (vs.splitOn "|").mapM parseView with
+    | some l, some views =>
+      if l.length != n || l.any (· ≥ 4) then none else
+      let cbv : Option (Option Out) := match cb.toList with
+        | ['-'] => some none
+        | [d] => if '0' ≤ d ∧ d ≤ '7' then
+            let v := d.toNat - '0'.toNat
+            some (some ⟨decide (v / 4 = 1), decide (v / 2 % 2 = 1), decide (v % 2 = 1)⟩) else none
+        | _ => none
+      cbv.map (fun c => ⟨fun a => Word.ofNat (l.getD a 0), c, views⟩)
+    | _, _ => none
+  | _ => none
+
+def sh (cfg words ops : String) (impl : List String) : String :=
+  let opl : Option (List SOp) := if ops == "-" then some [] else (ops.splitOn ",").mapM parseShOp
+  match parseShCfg cfg, (words.splitOn ",").mapM String.toNat?, opl, impl with
+  | some cf, some ws, some opl, [tr] =>
+    let m := cf.length
+    let n := ws.length
+    if ws.any (· ≥ 4) || !opl.all (shOpOk m n) then "E E bad-case" else
+    let checkedF : Cid → Bool := fun k => (cf.getD k none).isSome
+    let cfgF : Cid → Nat × Nat := fun k => (cf.getD k none).getD (1, 1)
+    let w0 : Addr → Word := fun a => Word.ofNat (ws.getD a 0)
+    let mt := HealthShare.trace m (St.init checkedF cfgF w0) opl
+    let model := if mt.isEmpty then "-" else joinWith ";" (mt.map (fmtShSeen n))
+    let agree := model == tr
+    let seen : Option (List HealthShare.Seen) := if tr == "-" then some [] else (tr.splitOn ";").mapM (parseShSeen n)
+    let holdsB : Bool := match seen with
+      | some sn => HealthShare.holds m n checkedF cfgF w0 opl sn
+      | none => false
+    s!"{if agree then "A" else "D"} {if holdsB then "S" else "V"} {model}"
+  | _, _, _, _ => "E E bad-case"
+
+end Share
+
 def run (caseToks impl : List String) : String :=
   match caseToks with
   | ["fl", init, ops, sched] => fl init ops sched impl
@@ -444,6 +550,7 @@ def run (caseToks impl : List String) : String :=
   | ["hd", u, h, f0, res] => hc "hd" u h f0 res impl
   | ["hl", u, h, f0, script] => hl u h f0 script impl
   | ["lc", cfg, words, ops] => lc cfg words ops impl
+  | ["sh", cfg, words, ops] => sh cfg words ops impl
   | _ => "E E unknown-kind"
 
 end MosnVerif.Drive.C16
